@@ -107,4 +107,16 @@ MUTANTS = [
                                 deserr_location__.push_key(deserr_key__.as_str())""", """                                ::deserr::IntoValue::into_value(deserr_value__),
                                 deserr_location__""")]},
     {"id": "c04-push-key-prev", "props": ["C04"], "edits": [("src/value.rs", "        Self::Index { index, prev: self }", "        Self::Index { index: index + 0 * 1 + 1, prev: self }")]},
+    # ------------------------------------------------------------------ C06
+    {"id": "c06-tuple-len-lt", "props": ["C06"], "edits": [(IMPLS, "                if len != 2 {", "                if len < 2 {")]},
+    {"id": "c06-vec-insert-front", "props": ["C06"], "edits": [(IMPLS, "                            vec.push(value);", "                            vec.insert(0, value);")]},
+    {"id": "c06-vec-rev", "props": ["C06"], "edits": [(IMPLS, "                for (index, value) in seq.into_iter().enumerate() {\n                    let result =\n                        T::deserialize_from_value(value.into_value(), location.push_index(index));\n                    match result {\n                        Ok(value) => {\n                            vec.push(value);",
+                                                     "                for (index, value) in seq.into_iter().enumerate().collect::<Vec<_>>().into_iter().rev() {\n                    let result =\n                        T::deserialize_from_value(value.into_value(), location.push_index(index));\n                    match result {\n                        Ok(value) => {\n                            vec.push(value);")]},
+    {"id": "c06-array-expected-plus1", "props": ["C06"], "edits": [(IMPLS, "                            actual: seq,\n                            expected: N,", "                            actual: seq,\n                            expected: N + 1,")]},
+    {"id": "c06-option-empty-string-none", "props": ["C06"], "edits": [(IMPLS, "            Value::Null => Ok(None),\n            value => T::deserialize_from_value(value, location).map(Some),",
+                                                                       "            Value::Null => Ok(None),\n            Value::String(s) if s.is_empty() => Ok(None),\n            value => T::deserialize_from_value(value, location).map(Some),")]},
+    {"id": "c06-vec-truncate", "props": ["C06"], "edits": [(IMPLS, "                if let Some(e) = error {\n                    Err(e)\n                } else {\n                    Ok(vec)\n                }", "                if let Some(e) = error {\n                    Err(e)\n                } else {\n                    vec.truncate(1000);\n                    Ok(vec)\n                }")]},
+    {"id": "c06-map-key-msg-drops-key", "props": ["C06"], "edits": [(IMPLS, 'msg: format!("the key \\"{string_key}\\" could not be deserialized into the key type `{}`",\n                                    std::any::type_name::<Key>())',
+                                                                     'msg: format!("a key could not be deserialized into the key type `{}`",\n                                    std::any::type_name::<Key>())')]},
+    {"id": "c06-set-skip-first", "props": ["C06"], "occurrence": 1, "edits": [(IMPLS, "for (index, value) in seq.into_iter().enumerate() {", "for (index, value) in seq.into_iter().enumerate().skip(1) {")]},
 ]
